@@ -82,7 +82,8 @@ def strace_push(ws_dir, args, env=None, timeout=120, inject=None, binary=None):
     """Run the binary under strace -f -y.  Returns (rc, stderr, events); an event is a dict
     {call, path, fd_path, flags, ret, err, write (bool: a write-class operation)}.  Paths are as the process
     gave them (relative to cwd = workspace, or absolute)."""
-    out = os.path.join(ws_dir, '..', os.path.basename(ws_dir) + '.strace')
+    fd, out = tempfile.mkstemp(prefix='rqverif.strace.', dir=vlib.SHM)
+    os.close(fd)
     cmd = ['strace', '-f', '-y', '-qq', '-o', out, '-e',
            'trace=open,openat,creat,write,pwrite64,writev,' + ','.join(_WRITE_CALLS)]
     if inject:
@@ -99,8 +100,19 @@ def strace_push(ws_dir, args, env=None, timeout=120, inject=None, binary=None):
     events = []
     try:
         with open(out, errors='replace') as f:
+            pending = {}
             for line in f:
-                m = _LINE.match(line.rstrip('\n'))
+                line = line.rstrip('\n')
+                # syscalls of concurrent threads are split into "<unfinished ...>" / "<... resumed>" halves
+                um = _re.match(r'^(\d+)\s+(\w+)\((.*) <unfinished \.\.\.>$', line)
+                if um:
+                    pending[um.group(1)] = (um.group(2), um.group(3))
+                    continue
+                rm_ = _re.match(r'^(\d+)\s+<\.\.\. (\w+) resumed>(.*)$', line)
+                if rm_ and rm_.group(1) in pending:
+                    call, args0 = pending.pop(rm_.group(1))
+                    line = '%s %s(%s%s' % (rm_.group(1), call, args0, rm_.group(3))
+                m = _LINE.match(line)
                 if not m:
                     continue
                 pid, call, argstr, ret, rest = m.groups()
